@@ -109,6 +109,7 @@ func (e *eng) Reset() {
 	group.Directory = e.groups
 	group.DataDirectory = e.data
 	token.SetStatefulFilename(filepath.Join(e.data, "var", "tokens.jsonl"))
+	group.VerifApiForgetGroups() // no group is live at the start of a case (op `live`)
 	e.k = 0
 	e.tags = map[int]string{}
 	e.tagOf = map[string]int{}
@@ -241,7 +242,18 @@ func (e *eng) Exec(op []string) string {
 		f.Close()
 		return e.changes()
 	case "req":
-		return e.doReq(op)
+		return e.doReq(op, "none")
+	case "freq": // freq <fault> <method> ... : `req` while writes to regular files fail (faults.go)
+		return e.doReq(op[1:], op[1])
+	case "live": // live <name>: group.Add(name, nil), the group is in memory from now on
+		_, err := group.Add(op[1], nil)
+		return errKind(err)
+	case "readcalls": // readcalls <scenario>: the calls of one GetDescription that touch the definition file
+		return readCallsOp(op[1])
+	case "readrace": // readrace <scenario>: the definition file is replaced while a stopped reader has it open
+		return readRaceOp(op[1])
+	case "faultcalls": // faultcalls <scenario>: the calls of one rewriteDescriptionFile whose write/fsync fails
+		return faultCallsOp(op[1])
 	case "gtag": // gtag <slot> <group>
 		tag, err := group.GetDescriptionTag(op[2])
 		return e.tagResult(op[1], tag, err)
@@ -365,6 +377,8 @@ func (e *eng) writeFile(rel string, content []byte) {
 //
 // req <method> <path> <cred> <ctype> <if-match> <if-none-match> <body>
 //   => <status|crash> e=<tag> b=<body> sec=<0|1> data=<0|1> chg=<...>
+// freq <fault> <method> ... (the same request while writes fail, see faults.go)
+//   => <status|crash> e=<tag> b=<body> sec=<0|1> data=<0|1> strays=<n> chg=<...>
 
 func (e *eng) hdr(sym string) string {
 	if sym == "-" {
@@ -400,7 +414,7 @@ func (e *eng) realName(s string) string {
 	return s
 }
 
-func (e *eng) doReq(op []string) string {
+func (e *eng) doReq(op []string, fault string) string {
 	method, pth, cred, ctype, im, inm, body := op[1], op[2], op[3], op[4], op[5], op[6], op[7]
 	// substitute aliases of server-generated token names in the path
 	segs := strings.Split(pth, "/")
@@ -452,7 +466,7 @@ func (e *eng) doReq(op []string) string {
 				crashed = true
 			}
 		}()
-		webserver.VerifApiHandler(rec, r)
+		withFault(fault, func() { webserver.VerifApiHandler(rec, r) })
 	}()
 	res := rec.Result()
 	raw, _ := io.ReadAll(res.Body)
@@ -509,6 +523,10 @@ func (e *eng) doReq(op []string) string {
 		data = true
 	}
 	b := e.canonBody(res, raw)
+	if fault != "none" {
+		strays := e.sweepTemps()
+		return fmt.Sprintf("%s e=%s b=%s sec=%s data=%s strays=%d %s", status, etag, b, common.B2s(sec), common.B2s(data), strays, e.changes())
+	}
 	return fmt.Sprintf("%s e=%s b=%s sec=%s data=%s %s", status, etag, b, common.B2s(sec), common.B2s(data), e.changes())
 }
 
@@ -608,6 +626,24 @@ func main() {
 		case "syscalls-lean": // syscalls-lean <out.lean>
 			if err := syscallsLean(os.Args[2]); err != nil {
 				fmt.Fprintln(os.Stderr, "syscalls-lean:", err)
+				os.Exit(1)
+			}
+			return
+		case "read-helper": // read-helper <dir> <scenario>
+			runtime.LockOSThread()
+			readHelper(os.Args[2:])
+			return
+		case "fault-helper": // fault-helper <dir> <scenario>
+			runtime.LockOSThread()
+			faultHelper(os.Args[2:])
+			return
+		case "syscalls-read-lean", "syscalls-fault-lean": // <out.lean>
+			f := syscallsReadLean
+			if os.Args[1] == "syscalls-fault-lean" {
+				f = syscallsFaultLean
+			}
+			if err := f(os.Args[2]); err != nil {
+				fmt.Fprintln(os.Stderr, os.Args[1]+":", err)
 				os.Exit(1)
 			}
 			return
